@@ -30,7 +30,7 @@ package inject
 
 // InterfaceOf is a function of its argument; it panics unless given a pointer to an interface.
 //@ func InterfaceOf
-//@   props C04
+//@   props C04 C05
 //@   pure
 //@   panics true
 //@   skip nil
@@ -66,7 +66,7 @@ package inject
 //@ define applyWanted(sv reflect.Value, i int) bool = rvCanSet(rvField(sv, i)) && tagHas(rtFieldTag(rvType(sv), i), "inject")
 //@ func (*injector).Apply
 //@   partial-anchors
-//@   props C04
+//@   props C04 C05
 //@   requires injOK(inj)
 //@   modifies inj.applied, inj.applyTarget
 //@   panics false
@@ -80,24 +80,24 @@ package inject
 
 // registration: a later registration for the same type replaces the earlier one
 //@ func (*injector).MapTo
-//@   props C04 C17
+//@   props C04 C17 C05
 //@   requires inj.values != nil
 //@   modifies inj.values[*]
 //@   panics true
 //@   ensures inj.values[inject.InterfaceOf(ifacePtr)] == reflect.ValueOf(val) && has(inj.values, inject.InterfaceOf(ifacePtr))
 //@   ensures forall k reflect.Type :: k != inject.InterfaceOf(ifacePtr) ==> inj.values[k] == old(inj.values[k]) && has(inj.values, k) == old(has(inj.values, k))
 //@ func (*injector).Set
-//@   props C04
+//@   props C04 C05
 //@   requires inj.values != nil
 //@   modifies inj.values[*]
 //@   ensures inj.values[typ] == val && has(inj.values, typ)
 //@   ensures forall k reflect.Type :: k != typ ==> inj.values[k] == old(inj.values[k]) && has(inj.values, k) == old(has(inj.values, k))
 //@ func (*injector).SetParent
-//@   props C04
+//@   props C04 C05
 //@   modifies inj.parent
 //@   ensures inj.parent == parent
 //@ func (*injector).Map
-//@   props C04
+//@   props C04 C05
 //@   requires inj.values != nil
 //@   modifies inj.values[*]
 //@   ensures forall j int :: 0 <= j && j < len(values) ==> has(inj.values, reflect.TypeOf(values[j]))
@@ -120,9 +120,10 @@ package inject
 //@   ensures forall i int :: 0 <= i && i < len(args) ==> this.lastArgs[i] == old(args[i])
 
 //@ func (*injector).fastInvoke
-//@   props C04
+//@   props C04 C05
 //@   requires injOK(inj) && f != nil && t != nil && numIn >= 0
 //@   modifies *
+//@   nosharedwrites
 //@   panics true
 //@   ghost before IsValid#0: inj.resolved[i] = val
 //@   ensures f.invocations == old(f.invocations) || f.invocations == old(f.invocations) + 1
@@ -137,9 +138,10 @@ package inject
 //@ ghost private field injector.calls int   // reflective calls made by callInvoke
 
 //@ func (*injector).callInvoke
-//@   props C04
+//@   props C04 C05
 //@   requires injOK(inj) && t != nil && numIn >= 0
 //@   modifies *
+//@   nosharedwrites
 //@   panics true
 //@   ghost before IsValid#0: inj.resolved[i] = val
 //@   assert before Call#0: len(in) == ite(numIn > 0, numIn, 0) && (forall j int :: 0 <= j && j < numIn ==> rvValid(inj.resolved[j]) && in[j] == inj.resolved[j] && valueOK(inj, rtIn(t, j), inj.resolved[j]))
@@ -154,12 +156,13 @@ package inject
 
 // Invoke: fast invokers go through their Invoke method, everything else through reflection; same resolution for both
 //@ func (*injector).Invoke
-//@   props C04
+//@   props C04 C05
 //@   requires injOK(inj) && f != nil
 //@   modifies *
+//@   nosharedwrites
 //@   panics true
 //@   skip nil@call:NumIn
 
 //@ func IsFastInvoker
-//@   props C04
+//@   props C04 C05
 //@   ensures result == implements(handler, type(FastInvoker))
